@@ -3,6 +3,7 @@
 Ordering (dominance) rules over the object-store calls of flush / compaction / manifest save, a
 who-may-use rule on the manifest key, and a buffer-restore rule for failed flushes.
 """
+import re
 from .facts import callee, op_place
 from .lib import src_of_operand, src_of_place, is_callee, all_paths_hit, TRANSPARENT
 from . import lib2
@@ -41,6 +42,9 @@ def run(ck, ctx):
     ck.rule("R12.5", "flush reports Ok(segment: Some) only after the manifest save succeeded (dominance by the awaited Ok edge)")
     ck.rule("R12.6", "a manifest about to be saved derives from a load in the same function whose failure is propagated "
                      "(no fallback to a cached/stale manifest); every save/put result is propagated, not discarded")
+    ck.rule("R12.7", "a flush persists everything it took: in every function that feeds a SegmentWriter (flush, compaction, legacy write "
+                     "buffer) each iteration of the loop over the deltas passes SegmentWriter::write_delta, the call's error is "
+                     "propagated, and the loop runs over the taken batch itself (no filtering/truncating adaptor in between)")
     ck.nd("enumeration of crash points with partial writes (needs the simulated store's semantics at run time)")
     ck.nd("that the saved manifest's contents list exactly the surviving objects (value-level)")
     for cfg in ctx.configs:
@@ -54,6 +58,7 @@ def run(ck, ctx):
         _r124(ck, prog, fns, cfg)
         _r125(ck, prog, cfg)
         _r126(ck, prog, fns, cfg)
+        _r127(ck, prog, fns, cfg)
 
 
 def _key_root(fn, operand):
@@ -313,3 +318,44 @@ def _r126(ck, prog, fns, cfg):
                          "then saves it, erasing concurrent updates (compaction/flush)", fn.where(lt["ln"]),
                          detail="load error -> Err return")
     ck.floor("R12.6" + _tag(cfg), n, 8)
+
+
+def _r127(ck, prog, fns, cfg, rid="R12.7", floor=2):
+    n = 0
+    for f in fns:
+        wr = [(b, t) for b, t in f.calls() if is_callee(t, r"SegmentWriter::write_delta$")]
+        if not wr:
+            continue
+        heads = lib2.loop_heads(f)
+        for k, (b, t) in enumerate(sorted(wr, key=lambda x: x[1]["ln"])):
+            n += 1
+            fid = re.sub(r"\{closure#\d+\}", "{closure}", f.id).replace("streaming::", "")
+            key = "%s:write_delta#%d%s" % (fid, k, _tag(cfg))
+            # the loop this write sits in
+            mine = [h for h, (none_t, some_t, nb) in heads.items() if b == some_t or b in f.reach([some_t], avoid=[h])]
+            if not mine:
+                ck.bad(rid, key, "SegmentWriter::write_delta is not inside a loop over the batch", f.where(t["ln"]))
+                continue
+            h = min(mine, key=lambda h: len(f.reach([heads[h][1]], avoid=[h])))   # innermost
+            # sinks: the write itself; an Err-propagating exit is accepted (the flush fails as a whole)
+            errs = {x for x in f.reachable_blocks() if lib2._err_assign_block(f, x)}
+            skip = lib2.iteration_skips(f, h, {b} | errs)
+            ok_err = lib2.error_propagates(f, t)
+            adapt = []
+            it = src_of_operand(f, f.term(heads[h][2])["args"][0], through_calls=TRANSPARENT)
+            cur = it
+            hops = 0
+            while cur.kind == "call" and hops < 8:
+                nm = callee(cur.term).rsplit("::", 1)[-1].split("<")[0]
+                if is_callee(cur.term, r"Iterator>::(filter|filter_map|take|skip|step_by|take_while|skip_while|dedup\w*)\b"):
+                    adapt.append(nm)
+                if not cur.term["args"]:
+                    break
+                cur = src_of_operand(f, cur.term["args"][0], through_calls=TRANSPARENT)
+                hops += 1
+            ck.check(skip is None and ok_err and not adapt, rid, key,
+                     "a delta taken for this flush can be left out of the segment (%s): it is acknowledged as flushed and then missing from "
+                     "what recovery reads" % ("an iteration skips the write" if skip is not None else
+                                               "the write error is not propagated" if not ok_err else "adaptor %s drops elements" % adapt),
+                     f.where(t["ln"]), detail="every iteration writes; error propagated; no adaptor")
+    ck.floor(rid + _tag(cfg), n, floor)
